@@ -533,7 +533,7 @@ func main() {
 			if os.Getenv("C16_ONLY") == "progs" { // development aid: the program families alone
 				return
 			}
-			ho = runHistories(nil, hb, cli, repo, overlay, map[bool]int{true: 6, false: 8}[c.Quick()])
+			ho = runHistories(nil, hb, cli, repo, overlay, map[bool]int{true: 12, false: 12}[c.Quick()])
 		}()
 	}
 	per := 64
